@@ -120,3 +120,36 @@ Proof. exact @int_single_gen_sound_partial. Qed.
 
 Print Assumptions C06_wrapper_regenerated.
 Print Assumptions C06_wrapper_regenerated_sound_partial.
+
+(* ------------------------------------------------------------------------------------------------------------
+   Extension (third round): further code regenerated from the Python source with equivalence lemmas *)
+From Coq Require Import List String NArith ZArith Bool Arith.
+From Tealer Require Import Tables Leaves LeafPrelude Syntax Parse Cfg StackAst Keys KeysGen Analysis Domains Detect Regex Group AssertedGen GraphGen SearchGen ConstraintsGen RegexGen GroupGen GraphGenLemmas TotalSolver GroupLemmas RegexLemmas ConstraintsGenLemmas RegexGenLemmas GroupGenLemmas.
+
+(* _block_level_constraints / _path_level_constraints REGENERATED from generic.py (tools/translate_constraints.py -> Gen/ConstraintsGen.v) write exactly the model's block_constraint / edge_constraint (assignment order of the two branch edges included) *)
+Theorem C06_constraint_initialisation_regenerated :
+  forall (T : Type) (univ null : T) (union inter : T -> T -> T) (single : instr -> nat -> list sval -> T * T) (f : func) 
+         (b : block) (fuel succ : nat),
+       NoDup (SolverLemmas.ids f) ->
+       In b (fn_blocks f) ->
+       defined_okb f = true ->
+       NoDup (b_ins b) ->
+       Datatypes.length (b_ins b) < fuel ->
+       block_level_constraints_gen T univ null union inter single f fuel (b_idx b) = block_constraint T univ null union inter single f b /\
+       (main_name_fresh f ->
+        fexit_op f b <> None ->
+        exit_next_ok f (b_idx b) b ->
+        bind (path_level_constraints_gen T univ null union inter single f fuel (b_idx b)) (fun w : list (nat * T) => last_write T w succ) =
+        edge_constraint T univ null union inter single f b succ).
+Proof. exact @constraints_gen_eq_In. Qed.
+
+(* the Python test `len(exit_instr.next) > 1` and the model's "jump target is the next line" agree on every parsed contract *)
+Theorem C06_single_successor_test_agrees :
+  forall (p : prog) (t : teal),
+       parse_teal p = Ok t ->
+       (forall k : nat, op_at p k <> Some ICustomErr) ->
+       forall pred : block, In pred (fn_blocks (whole_function t)) -> exit_next_ok (whole_function t) (b_idx pred) pred.
+Proof. exact @exit_next_ok_whole. Qed.
+
+Print Assumptions C06_constraint_initialisation_regenerated.
+Print Assumptions C06_single_successor_test_agrees.
